@@ -909,7 +909,7 @@ def toyDeps : Deps :=
       f.rowGroups.flatMap (fun g => [UInt8.ofNat g.totalByteSize, UInt8.ofNat g.fileOffset]),
     statsStep := fun _ c _ => c }
 
-def toyCols : List Col := [⟨"a", .int32, .required, 0⟩]
+def toyCols : List Col := [⟨"a", .int32, .required, 0, none⟩]
 
 /-- one batch of two INT32 values, `new_row_group`, one more batch -/
 def toyOps : List Op :=
